@@ -22,7 +22,7 @@ import (
 	"github.com/flamego/flamego/verifharness/internal/rt"
 )
 
-const rule = "case = 1..4 named routes (registered through Get / Route / Routes / Any / Combo, inside or outside a group) and 1..6 build requests, each an assignment giving every bind a value from {absent, empty, plain, with '/', with '{other-bind}', with '{self}', with '{' or '}', '%41'} plus unknown names, with or without withOptional; " +
+const rule = "case = 1..4 named routes (registered through Get / Route / Routes / Any / Combo, outside a group, inside one, or inside up to three nested groups next to sibling routes) and 1..6 build requests, each an assignment giving every bind a value from {absent, empty, plain, with '/', with '{other-bind}', with '{self}', with '{' or '}', '%41'} plus unknown names, with or without withOptional; " +
 	"oracle = own single-pass substitution over the derivation, compared with Router.URLPath and Context.URLPath (inside a handler). Inverse: requests built from route instances are served, the handler builds the URL of its own named route from the parameters it received (optional segment iff the request used it) and must get the decoded request path back. " +
 	"Also: Name(\"\"), a duplicate name and URLPath of an unknown name must panic. " +
 	"non-trivial = a build whose values contain braces or another bind's name, or whose route has >=2 binds or a parameter list, or an inverse check on a path with an escape; distinct by case text"
@@ -144,6 +144,28 @@ func build(c Case) (a *app, err interface{}) {
 			a.f.Any(n.R, h).Name(n.Name)
 		case "combo":
 			a.f.Combo(n.R).Get(h).Post(h).Name(n.Name)
+		case "nested":
+			// one group per leading segment (up to three levels); the innermost
+			// group also holds sibling routes declared before and after
+			d := rt.Deriv(n.R)
+			depth := len(d.Segs) - 1
+			if depth > 3 {
+				depth = 3
+			}
+			var decl func(level int)
+			decl = func(level int) {
+				if level == depth {
+					tail := model.Route{Segs: d.Segs[depth:]}.Source()
+					a.f.Get("/zz-sib-a-"+n.Name, func() {})
+					a.f.Get(tail, h).Name(n.Name)
+					a.f.Get("/zz-sib-b-"+n.Name, func() {})
+					a.f.Group("/zz-sub-"+n.Name, func() { a.f.Get("/x", func() {}) })
+					return
+				}
+				head := model.Route{Segs: d.Segs[level : level+1]}.Source()
+				a.f.Group(head, func() { decl(level + 1) })
+			}
+			decl(0)
 		case "group":
 			// the route text is split after its first segment
 			d := rt.Deriv(n.R)
@@ -376,7 +398,7 @@ careful:
 
 // ---- generator ---------------------------------------------------------------
 
-var vias = []string{"get", "route", "routes", "any", "combo", "group"}
+var vias = []string{"get", "route", "routes", "any", "combo", "group", "nested", "nested"}
 
 func genCase(t *rapid.T) Case {
 	var c Case
